@@ -10,8 +10,8 @@ DF = "synkit/CRN/Props/deficiency.py"
 CLASSES = {"DeficiencyAnalyzer": {"file": DF, "fields": {}}}
 TRUSTED = ["A-nx-graph", "A-builtins (sorted: permutation ordered by key, stable; str() of a label uninterpreted)"]
 ASSUMPTIONS = ["A-linalg: exact rank (floating point / SVD tolerances are not modelled)",
-               "complex-vector bookkeeping (_complex_vectors), linkage classes and the deficiency formula are checked by the "
-               "bounded twin against an independent exact computation; only the species/reaction ordering layer is proved"]
+               "linkage classes, weak reversibility, the rank and the deficiency formula are checked by the bounded twin against an "
+               "independent exact computation; proved: the species/reaction ordering layer and the complex construction (_complex_vectors)"]
 NOT_APPLICABLE_CLAUSES = ["deficiency >= 0 and sum of linkage-class deficiencies <= deficiency are theorems about the defined "
                           "quantities (Feinberg); not re-proved, checked bounded with exact ranks"]
 
@@ -109,15 +109,25 @@ FUNCTIONS = {
     },
     DF + "::DeficiencyAnalyzer._complex_vectors": {
         "params": {"G": "obj:DiGraph"},
-        "vars": {"idx_map": "dict[list[int],int]", "complexes": "list[list[int]]", "lhs": "list[int]", "rhs": "list[int]"},
+        "vars": {"idx_map": "dict[list[int],int]", "complexes": "list[list[int]]", "lhs": "list[int]", "rhs": "list[int]", "lix": "list[int]", "rix": "list[int]"},
         "returns": "tuple[list[list[int]],dict[list[int],int],obj:DiGraph]",
         "requires": ["exists(G.nodes, lambda n: is_species(G, n))", "exists(G.nodes, lambda n: is_reaction(G, n))",
                      "forall(G.edges, lambda a, b: isinstance(G[a][b].get('stoich', 1), int) and not isinstance(G[a][b].get('stoich', 1), bool))",
                      "forall(G.nodes, lambda r: not G.has_edge(r, r))"],
         "modifies": [],
         "ensures": ["is_fresh(result[2])", "reg_ok(result[1], result[0], result[2])"],
+        # every reaction is represented by its two coefficient vectors, joined by an arc; the complex graph has no other arc
+        "ghost_ensures": [
+            "len(lix) == len(reaction_nodes) and len(rix) == len(reaction_nodes)",
+            "forall(range(len(reaction_nodes)), lambda j: 0 <= lix[j] and lix[j] < len(result[0]) and 0 <= rix[j] and rix[j] < len(result[0]) and result[2].has_edge(lix[j], rix[j]))",
+            "forall(range(len(reaction_nodes)), lambda j: is_lvec(result[0][lix[j]], G, reaction_nodes[j], _species_nodes, n_s))",
+            "forall(range(len(reaction_nodes)), lambda j: is_rvec(result[0][rix[j]], G, reaction_nodes[j], _species_nodes, n_s))",
+            "forall(result[2].edges, lambda a, b: exists(range(len(reaction_nodes)), lambda j: same(a, lix[j]) and same(b, rix[j])))",
+        ],
         "loops": {
             1: {"modifies": ["CG.nodes", "CG.nattr", "CG.adj", "CG.eattr"],
+                "ghost_init": ["lix = []", "rix = []"],
+                "ghost_step": ["lix.append(u_idx)", "rix.append(v_idx)"],
                 "facts": [
                     "n_s == len(_species_nodes)",
                     "forall(range(n_s), lambda i: _species_nodes[i] in species_index and species_index[_species_nodes[i]] == i)",
@@ -134,14 +144,44 @@ FUNCTIONS = {
                     "is_rvec(y_prime, G, r, _species_nodes, n_s)",
                     # the two registrations (add_complex is used through its contract) compose
                     "len(complexes) >= at_iter(len(complexes))",
+                    "forall(range(at_iter(len(complexes))), lambda k: same(complexes[k], at_iter(complexes[k])))",
                     "0 <= u_idx and u_idx < len(complexes) and same(complexes[u_idx], y)",
                     "0 <= v_idx and v_idx < len(complexes) and same(complexes[v_idx], y_prime)",
                     "is_lvec(complexes[u_idx], G, r, _species_nodes, n_s) and is_rvec(complexes[v_idx], G, r, _species_nodes, n_s)",
                     "forall(('any', 'any'), lambda a, b: CG.has_edge(a, b) == (at_iter(CG.has_edge(a, b)) or (same(a, u_idx) and same(b, v_idx))))",
+                    # the ghost index lists: old entries untouched, the new last entry is this reaction's pair
+                    "len(lix) == done and len(rix) == done and lix[done - 1] == u_idx and rix[done - 1] == v_idx",
+                    "forall(range(done - 1), lambda j: lix[j] == at_iter(lix[j]) and rix[j] == at_iter(rix[j]) and lix[j] < at_iter(len(complexes)) and rix[j] < at_iter(len(complexes)))",
+                    "forall(range(done - 1), lambda j: at_iter(0 <= lix[j] and lix[j] < len(complexes) and 0 <= rix[j] and rix[j] < len(complexes)))",
+                    {"assert": "forall(range(done - 1), lambda j: same(complexes[lix[j]], at_iter(complexes[lix[j]])) and same(complexes[rix[j]], at_iter(complexes[rix[j]])))",
+                     "using": ["forall(range(at_iter(len(complexes))), lambda k: same(complexes[k], at_iter(complexes[k])))", "forall(range(done - 1), lambda j: lix[j] == at_iter(lix[j]) and rix[j] == at_iter(rix[j]) and lix[j] < at_iter(len(complexes)) and rix[j] < at_iter(len(complexes)))", "forall(range(done - 1), lambda j: at_iter(0 <= lix[j] and lix[j] < len(complexes) and 0 <= rix[j] and rix[j] < len(complexes)))"]},
+                    "forall(range(done - 1), lambda j: at_iter(is_lvec(complexes[lix[j]], G, reaction_nodes[j], _species_nodes, n_s)))",
+                    "forall(range(done - 1), lambda j: at_iter(is_rvec(complexes[rix[j]], G, reaction_nodes[j], _species_nodes, n_s)))",
+                    "forall(range(len(reaction_nodes)), lambda j: forall(range(n_s), lambda i: Rc(G, reaction_nodes[j], _species_nodes[i]) == at_iter(Rc(G, reaction_nodes[j], _species_nodes[i]))))",
+                    {"assert": "forall(range(done - 1), lambda j: is_lvec(complexes[lix[j]], G, reaction_nodes[j], _species_nodes, n_s))",
+                     "using": ["forall(range(done - 1), lambda j: same(complexes[lix[j]], at_iter(complexes[lix[j]])) and same(complexes[rix[j]], at_iter(complexes[rix[j]])))", "forall(range(done - 1), lambda j: at_iter(is_lvec(complexes[lix[j]], G, reaction_nodes[j], _species_nodes, n_s)))"]},
+                    "forall(range(done - 1), lambda j: forall(range(n_s), lambda i: complexes[rix[j]][i] == at_iter(complexes[rix[j]][i])))",
+                    {"assert": "forall(range(done - 1), lambda j: is_rvec(complexes[rix[j]], G, reaction_nodes[j], _species_nodes, n_s))",
+                     "using": ["forall(range(done - 1), lambda j: at_iter(is_rvec(complexes[rix[j]], G, reaction_nodes[j], _species_nodes, n_s)))", "forall(range(done - 1), lambda j: forall(range(n_s), lambda i: complexes[rix[j]][i] == at_iter(complexes[rix[j]][i])))", "forall(range(len(reaction_nodes)), lambda j: forall(range(n_s), lambda i: Rc(G, reaction_nodes[j], _species_nodes[i]) == at_iter(Rc(G, reaction_nodes[j], _species_nodes[i]))))"]},
+                    "forall(range(done - 1), lambda j: at_iter(CG.has_edge(lix[j], rix[j])))",
+                    "forall(range(done - 1), lambda j: CG.has_edge(lix[j], rix[j]))",
                     "CG.has_edge(u_idx, v_idx)",
+                    {"assert": "forall(range(done), lambda j: 0 <= lix[j] and lix[j] < len(complexes) and 0 <= rix[j] and rix[j] < len(complexes))",
+                     "using": ["forall(range(done - 1), lambda j: at_iter(0 <= lix[j] and lix[j] < len(complexes) and 0 <= rix[j] and rix[j] < len(complexes)))", "forall(range(done - 1), lambda j: lix[j] == at_iter(lix[j]) and rix[j] == at_iter(rix[j]) and lix[j] < at_iter(len(complexes)) and rix[j] < at_iter(len(complexes)))", "len(lix) == done and len(rix) == done and lix[done - 1] == u_idx and rix[done - 1] == v_idx", "len(complexes) >= at_iter(len(complexes))", "0 <= u_idx and u_idx < len(complexes) and same(complexes[u_idx], y)", "0 <= v_idx and v_idx < len(complexes) and same(complexes[v_idx], y_prime)"]},
+                    "same(reaction_nodes[done - 1], r)",
+                    "forall(CG.edges, lambda a, b: implies(at_iter(CG.has_edge(a, b)), exists(range(done - 1), lambda j: same(a, lix[j]) and same(b, rix[j]))))",
                 ],
                 "inv": [
+                    "len(lix) == done and len(rix) == done",
                     "reg_ok(idx_map, complexes, CG)",
+                    # every processed reaction has its reactant and product complex in the list, joined by an arc of the complex graph
+                    {"inv": "forall(range(done), lambda j: 0 <= lix[j] and lix[j] < len(complexes) and 0 <= rix[j] and rix[j] < len(complexes) and CG.has_edge(lix[j], rix[j]))",
+                     "using": ["forall(range(done), lambda j: 0 <= lix[j] and lix[j] < len(complexes) and 0 <= rix[j] and rix[j] < len(complexes))", "forall(range(done - 1), lambda j: CG.has_edge(lix[j], rix[j]))", "CG.has_edge(u_idx, v_idx)", "len(lix) == done and len(rix) == done and lix[done - 1] == u_idx and rix[done - 1] == v_idx"]},
+                    {"inv": "forall(range(done), lambda j: is_lvec(complexes[lix[j]], G, reaction_nodes[j], _species_nodes, n_s))",
+                     "using": ["forall(range(done - 1), lambda j: is_lvec(complexes[lix[j]], G, reaction_nodes[j], _species_nodes, n_s))", "is_lvec(complexes[u_idx], G, r, _species_nodes, n_s) and is_rvec(complexes[v_idx], G, r, _species_nodes, n_s)", "len(lix) == done and len(rix) == done and lix[done - 1] == u_idx and rix[done - 1] == v_idx", "same(reaction_nodes[done - 1], r)"]},
+                    {"inv": "forall(range(done), lambda j: is_rvec(complexes[rix[j]], G, reaction_nodes[j], _species_nodes, n_s))",
+                     "using": ["forall(range(done - 1), lambda j: is_rvec(complexes[rix[j]], G, reaction_nodes[j], _species_nodes, n_s))", "is_lvec(complexes[u_idx], G, r, _species_nodes, n_s) and is_rvec(complexes[v_idx], G, r, _species_nodes, n_s)", "len(lix) == done and len(rix) == done and lix[done - 1] == u_idx and rix[done - 1] == v_idx", "same(reaction_nodes[done - 1], r)"]},
+                    "forall(CG.edges, lambda a, b: exists(range(done), lambda j: same(a, lix[j]) and same(b, rix[j])))",
                 ]},
             2: {"modifies": [],
                 "facts": [
